@@ -413,7 +413,7 @@ def key_pool(rng, tier):
 
 def gen(rng, tier):
     cases = []
-    n = 300 if tier == "quick" else 6000
+    n = 200 if tier == "quick" else 2000
     for _ in range(n):
         xs = [_rand_string(rng) for _ in range(rng.choice([0, 1, 1, 1, 2, 3, 5]))]
         cases.append({"kind": "ns", "xs": [x.hex() for x in xs], "rest": _rbytes(rng, rng.choice([0, 0, 1, 3, 4, 9])).hex()})
